@@ -162,11 +162,13 @@ class RolandSmall:
         self.RF.FAT_NUM_ENTRIES = self.saved
 
 
-def roland_container(T, version_flags=(0xFFFF, 0xFFFF)):
+def roland_container(T, raw=None):
+    """the metadata words overlay the table (word 0: id, word 1: free-cluster count, last two words: version flags)"""
+    raw = T if raw is None else raw
     return types.SimpleNamespace(
         fat_entries=T,
-        metadata=types.SimpleNamespace(fat_id=0xFFFA, num_unused_clusters=0,
-                                       version_flag_1=version_flags[0], version_flag_2=version_flags[1]),
+        metadata=types.SimpleNamespace(fat_id=raw[0], num_unused_clusters=raw[1],
+                                       version_flag_1=raw[len(raw) - 2], version_flag_2=raw[len(raw) - 1]),
         stream_size=0, fat_data_stream=None)
 
 
@@ -192,11 +194,16 @@ def roland_clean(T, lo, hi):
     return True
 
 
-def roland_table(cells):
-    T = [0xFFFA, 0] + list(cells) + [0xFFF8] * (ROLAND_SMALL - 2 - len(cells))
-    T[ROLAND_SMALL - 2] = 0xFFFF
-    T[ROLAND_SMALL - 1] = 0xFFFF
+def roland_table(cells, hdr=0, vflags=(0xFFFF, 0xFFFF)):
+    T = [0xFFFA, hdr] + list(cells) + [0xFFF8] * (ROLAND_SMALL - 2 - len(cells))
+    T[ROLAND_SMALL - 2] = vflags[0]
+    T[ROLAND_SMALL - 1] = vflags[1]
     return T
+
+
+# redundant header words: free-cluster count (consistent, stale, garbage) and the three accepted version-flag pairs
+R_HDR = [1, 5, ROLAND_SMALL - 1, ROLAND_SMALL, 0xFFF1, 0xFFFF]
+R_VFLAGS = [(0xFFFF, 0xFFFF), (0xFFFE, 0xFFFF), (0xFFFF, 0xFFFE), (0xFFFE, 0xFFFE)]
 
 
 def check_roland_table(RF, T, N, lo, hi, rep, steps, seam, embed=None):
@@ -205,7 +212,7 @@ def check_roland_table(RF, T, N, lo, hi, rep, steps, seam, embed=None):
     blk = counting(T, dbudget)
     ad = RF.FatAreaAdapter(RF.FatAreaStruct)
     try:
-        area = ad._decode(roland_container(blk), {}, "")
+        area = ad._decode(roland_container(blk, T), {}, "")
         dst = "ok"
     except BudgetExceeded:
         dst, area = "hang", None
@@ -263,26 +270,37 @@ def run_roland(prefix, rep, steps, ncells=5):
             check_roland_table(RF, T, ROLAND_SMALL, 2, 7, rep, steps, "roland_fat16")
 
 
-def run_roland_embedded(cells_list, rep, steps):
+def run_roland_hdr(prefix, rep, steps, ncells):
+    """the same closed enumeration with every header word / version-flag pair (they must not influence any chain)"""
+    with RolandSmall() as RF:
+        rest = ncells - len(prefix)
+        for tail in itertools.product(R_ALPHA, repeat=rest):
+            for hdr in R_HDR:
+                for vf in R_VFLAGS:
+                    T = roland_table(list(prefix) + list(tail), hdr, vf)
+                    check_roland_table(RF, T, ROLAND_SMALL, 2, 2 + ncells, rep, steps, "roland_fat16")
+
+
+def run_roland_embedded(cells_list, rep, steps, hdrs=(0, 0xFFF1, 0xFFFF)):
     """Conformance of the shrunken table to the real one: the same cell patterns embedded in a
     real 65536-entry FAT area and parsed through FatAreaParser.parse."""
     import struct
     from smpl_extract.roland.s7xx import fat as RF
     N = RF.FAT_NUM_ENTRIES
     hangs = 0
-    for cells in cells_list:
+    for cells, hdr in [(c, h) for c in cells_list for h in hdrs]:
         if hangs >= 2:
             # every further hang would cost the full budget: the shard's verdict is already decided
             rep.notes["embedded_skipped_after_hangs"] += 1
             continue
         # out-of-range value 16 of the small alphabet has no equivalent (every u16 is in range): map to 7 -> 7 is 'end'
-        T = [0xFFFA, 0] + [c for c in cells] + [0xFFF8] * 9 + [0] * (N - 2 - len(cells) - 9 - 2) + [0xFFFF, 0xFFFF]
+        T = [0xFFFA, hdr] + [c for c in cells] + [0xFFF8] * 9 + [0] * (N - 2 - len(cells) - 9 - 2) + [0xFFFF, 0xFFFF]
         raw = struct.pack("<%dH" % N, *T)
 
         def parse():
             return RF.FatAreaParser.parse(raw + b"\x00" * 16)
         st, area = guarded(parse, 6.0)
-        case = {"seam": "roland_fat65536", "cells": list(cells), "start": None}
+        case = {"seam": "roland_fat65536", "cells": list(cells), "hdr": hdr, "start": None}
         if st == "hang":
             hangs += 1
             rep.case(case, ok=False, klass="decode-hang", nontrivial=True, sig="roland65536:decode-hang",
@@ -298,7 +316,7 @@ def run_roland_embedded(cells_list, rep, steps):
             continue
         for s in range(2, 2 + len(cells)):
             exp, why = RC.roland_chain(T, s)
-            case = {"seam": "roland_fat65536", "cells": list(cells), "start": s}
+            case = {"seam": "roland_fat65536", "cells": list(cells), "hdr": hdr, "start": s}
             st2, got = guarded(lambda: area.fat.get_path(s), 6.0)
             if st2 == "hang":
                 rep.case(case, ok=False, klass="hang", nontrivial=True, sig="roland65536:hang:" + why,
@@ -343,7 +361,9 @@ class Check(CheckBase):
             "links 1..n-1, n}) x all starts, n=5 quick / 6 thorough; (c) all raw Roland FAT tables over scanned cells "
             "2..6 with FAT_NUM_ENTRIES rebound to 16 (word in {free,reserved,error,0xFFF8,0xFFFF,links 2..7,16}) x "
             "starts 2..7, plus the same cell patterns embedded in a real 65536-entry FAT (one representative per "
-            "outcome class quick / every 7th table thorough); (d) FileStream.readall over every injective chain of "
+            "outcome class quick / every 7th table thorough), each with the free-cluster count word 0 / 0xFFF1 / 0xFFFF; "
+            "(c') all tables over 3 (quick) / 4 (thorough) scanned cells x free-cluster count word {1,5,15,16,0xFFF1,0xFFFF} "
+            "x the four accepted version-flag pairs (redundant header words must not influence any chain); (d) FileStream.readall over every injective chain of "
             "<=n sectors. states = (table,start) combinations; transitions = table element reads performed by the "
             "implementation (counted by list proxies, which are also the non-termination detector). "
             "non-trivial = reference chain has >=2 sectors or is malformed")
@@ -375,6 +395,9 @@ class Check(CheckBase):
         for a in R_ALPHA:
             for b in R_ALPHA:
                 out.append({"seam": "roland", "prefix": [a, b]})
+        for a in R_ALPHA:
+            for b in R_ALPHA if not self.quick else [None]:
+                out.append({"seam": "roland_hdr", "prefix": [a] if b is None else [a, b], "ncells": 3 if self.quick else 4})
         # embedded conformance: deterministic selection of cell patterns
         pats = list(itertools.product([0, 1, RC.R_ERR, 0xFFF8, 2, 3, 4, 5, 6, 7], repeat=5))
         if self.quick:
@@ -408,6 +431,8 @@ class Check(CheckBase):
             run_akai(shard["n"], shard["prefix"], rep, steps)
         elif shard["seam"] == "roland":
             run_roland(shard["prefix"], rep, steps)
+        elif shard["seam"] == "roland_hdr":
+            run_roland_hdr(shard["prefix"], rep, steps, shard["ncells"])
         elif shard["seam"] == "roland_embedded":
             run_roland_embedded(shard["cells"], rep, steps)
         elif shard["seam"] == "streams":
@@ -428,7 +453,7 @@ class Check(CheckBase):
             with RolandSmall() as RF:
                 check_roland_table(RF, case["table"], ROLAND_SMALL, 2, 7, sub, steps, "roland_fat16")
         elif seam == "roland_fat65536":
-            run_roland_embedded([case["cells"]], sub, steps)
+            run_roland_embedded([case["cells"]], sub, steps, hdrs=(case.get("hdr", 0),))
         elif seam == "filestream":
             F = _fat_mod()
             ch = case["chain"]
